@@ -79,6 +79,8 @@ type Facts struct {
 	Edges     [][2]string         `json:"edges"`
 	Funcs     []string            `json:"funcs"`
 	Writes    map[string][]string `json:"writes"` // method -> receiver fields assigned / buffer-mutating calls on receiver fields
+	ValueRecv []string            `json:"value_receivers"` // methods declared with a value (non-pointer) receiver
+	EscapeRecv []string           `json:"receiver_address_escapes"` // methods that pass &recv (or a conversion of it) to a call
 }
 
 var fset = token.NewFileSet()
@@ -194,6 +196,11 @@ func main() {
 				case *ast.FuncDecl:
 					fn := funcName(dd)
 					facts.Funcs = append(facts.Funcs, d+"."+fn)
+					if dd.Recv != nil && len(dd.Recv.List) > 0 {
+						if _, ptr := dd.Recv.List[0].Type.(*ast.StarExpr); !ptr {
+							facts.ValueRecv = append(facts.ValueRecv, d+"."+fn)
+						}
+					}
 					if dd.Body == nil {
 						continue
 					}
@@ -461,6 +468,34 @@ func collectFunc(f *Facts, pkg, file, fn string, fd *ast.FuncDecl) {
 	if fd.Recv != nil && len(fd.Recv.List) > 0 && len(fd.Recv.List[0].Names) > 0 {
 		recvName = fd.Recv.List[0].Names[0].Name
 	}
+	// one-level aliases of receiver fields: x := recv.f, x := &recv.f
+	alias := map[string]string{}
+	if recvName != "" {
+		ast.Inspect(fd.Body, func(n ast.Node) bool {
+			as, ok := n.(*ast.AssignStmt)
+			if !ok || len(as.Lhs) != len(as.Rhs) {
+				return true
+			}
+			for i, l := range as.Lhs {
+				id, ok := l.(*ast.Ident)
+				if !ok {
+					continue
+				}
+				r := as.Rhs[i]
+				if u, ok := r.(*ast.UnaryExpr); ok && u.Op == token.AND {
+					r = u.X
+				}
+				if se, ok := r.(*ast.SelectorExpr); ok {
+					if rid, ok := se.X.(*ast.Ident); ok && rid.Name == recvName {
+						alias[id.Name] = se.Sel.Name
+					}
+				}
+			}
+			return true
+		})
+	}
+	mutating := map[string]bool{"Next": true, "Read": true, "ReadByte": true, "ReadFrom": true, "Truncate": true, "Write": true, "WriteByte": true, "WriteTo": true,
+		"Reset": true, "Seek": true, "ReadBytes": true, "ReadString": true, "UnreadByte": true, "Grow": true, "WriteString": true, "ReadRune": true}
 	var stack []ast.Node
 	ast.Inspect(fd.Body, func(n ast.Node) bool {
 		if n == nil {
@@ -510,6 +545,30 @@ func collectFunc(f *Facts, pkg, file, fn string, fd *ast.FuncDecl) {
 					}
 				}
 				f.Edges = append(f.Edges, [2]string{pkg + "." + fn, "*." + c.Sel.Name})
+			}
+			// calls of mutating buffer methods through an alias of a receiver field, and escapes of &recv
+			if recvName != "" {
+				if se, ok := x.Fun.(*ast.SelectorExpr); ok {
+					if id, ok := se.X.(*ast.Ident); ok {
+						if fld, ok := alias[id.Name]; ok && mutating[se.Sel.Name] {
+							f.Writes[pkg+"."+fn] = append(f.Writes[pkg+"."+fn], fld+"."+se.Sel.Name+"(via "+id.Name+")")
+						}
+					}
+				}
+				for _, arg := range x.Args {
+					esc := false
+					ast.Inspect(arg, func(m ast.Node) bool {
+						if u, ok := m.(*ast.UnaryExpr); ok && u.Op == token.AND {
+							if id, ok := u.X.(*ast.Ident); ok && id.Name == recvName {
+								esc = true
+							}
+						}
+						return true
+					})
+					if esc {
+						f.EscapeRecv = append(f.EscapeRecv, pkg+"."+fn)
+					}
+				}
 			}
 			// buffer-consuming calls on receiver fields
 			if recvName != "" {
@@ -564,10 +623,16 @@ func collectFunc(f *Facts, pkg, file, fn string, fd *ast.FuncDecl) {
 						}
 						break
 					}
-					if se, ok := e.(*ast.SelectorExpr); ok {
+					for {
+						se, ok := e.(*ast.SelectorExpr)
+						if !ok {
+							break
+						}
 						if id, ok := se.X.(*ast.Ident); ok && id.Name == recvName {
 							f.Writes[pkg+"."+fn] = append(f.Writes[pkg+"."+fn], se.Sel.Name)
+							break
 						}
+						e = se.X
 					}
 					if id, ok := e.(*ast.Ident); ok && id.Name == recvName {
 						f.Writes[pkg+"."+fn] = append(f.Writes[pkg+"."+fn], "*")
@@ -708,6 +773,12 @@ func leanFile(f *Facts) string {
 		w("  (%s, [%s])%s\n", leanStr(k), joinQ(f.Writes[k]), sep)
 	}
 	w("]\n\n")
+	sort.Strings(f.ValueRecv)
+	sort.Strings(f.EscapeRecv)
+	w("/-- methods declared with a value (non-pointer) receiver -/\n")
+	w("def valueReceivers : List String := [%s]\n\n", joinQ(f.ValueRecv))
+	w("/-- methods that pass the address of their receiver to a call -/\n")
+	w("def receiverAddressEscapes : List String := [%s]\n\n", joinQ(f.EscapeRecv))
 	w("def funcs : List String := [%s]\n\n", joinQ(f.Funcs))
 	w("/-- resolved static call edges (indices into `funcs`) -/\n")
 	w("def edges : List (Nat × Nat) := [")
